@@ -36,7 +36,7 @@ ASSUMPTIONS = [
     "LLIL semantics are those of binja_test_mocks",
     "K_IRQ=4 and K_WAKE=2 boundaries are the promptness bounds",
 ]
-PROBES = ["delivery", "nested_delivery", "delivery_out_of_halt", "delivery_after_wait", "rise_while_masked",
+PROBES = ["off_segment", "fired_running", "fired_halted", "delivery", "nested_delivery", "delivery_out_of_halt", "delivery_after_wait", "rise_while_masked",
           "masked_then_taken", "reti", "ir", "wake", "onk_while_off", "event_inside_handler",
           "both_timers_same_step", "two_sources_deliverable", "halted_boundary", "off_boundary"]
 
@@ -45,18 +45,93 @@ ALLOW = {"timers": True, "keys": True, "onk": True, "imr_writes": True, "isr_wri
 
 
 def batches(tier: str) -> List[Batch]:
+    # rs-async-timer: the peripherals driven by AsyncTimerKeyboardTask on the virtual-time scheduler (no CPU task),
+    # power state imposed per segment: the "powered off stops both timers" clause on the asynchronous path
     if tier == "quick":
-        return [Batch("rs-clean", "rs-machine", 4000, 100, faulty=False),
+        return [Batch("rs-async-timer", "rs-async-timer", 20000, 500),
+                Batch("rs-clean", "rs-machine", 4000, 100, faulty=False),
                 Batch("rs-faulty", "rs-machine", 16000, 100),
                 Batch("py-clean", "py-machine", 480, 10, faulty=False),
                 Batch("py-faulty", "py-machine", 1920, 10)]
-    return [Batch("rs-clean", "rs-machine", 40000, 200, faulty=False),
+    return [Batch("rs-async-timer", "rs-async-timer", 400000, 1000),
+            Batch("rs-clean", "rs-machine", 40000, 200, faulty=False),
             Batch("rs-faulty", "rs-machine", 200000, 200),
             Batch("py-clean", "py-machine", 4000, 16, faulty=False),
             Batch("py-faulty", "py-machine", 20000, 16)]
 
 
+def _gen_atimer(r: Rng) -> Dict[str, Any]:
+    mti = r.choice([1, 2, 3, 5, 7, 16, 50])
+    sti = r.choice([0, 2, 3, 11, 13, 40])
+    segs = []
+    for _ in range(r.range(3, 14)):
+        segs.append([r.choice([1, 2, 3, 5, 8, 20, 60, r.range(1, 40)]), r.weighted([(0, 4), (1, 1), (2, 3)])])
+    return {"kind": "atimer", "exec": "rs-async-timer", "cfg": {"enabled": r.chance(7, 8), "mti": mti, "sti": sti}, "segs": segs}
+
+
+def _check_atimer(scn: Dict[str, Any], hist: Dict[str, Any]) -> List[Dict[str, Any]]:
+    viols: List[dict] = []
+    probes: Dict[str, int] = {}
+    hist["_probes"] = probes
+    cfg = scn["cfg"]
+    nxt = {"MTI": cfg["mti"], "STI": cfg["sti"]}
+    period = {"MTI": cfg["mti"], "STI": cfg["sti"]}
+    bitof = {"MTI": 1, "STI": 2}
+    clock = 0
+    flagged = set()
+
+    def V(cls, k, msg, **where):
+        key = (cls, tuple(sorted(where.items())))
+        if key not in flagged:
+            flagged.add(key)
+            viols.append({"cls": cls, "executor": "rs-async-timer", "where": where, "msg": f"segment {k}: {msg}", "at": k})
+
+    for k, (seg, rec) in enumerate(zip(scn["segs"], hist["out"])):
+        c1, isr, n_mti, n_sti = rec[0], rec[1], rec[2], rec[3]
+        power = seg[1]
+        got_next = {"MTI": n_mti, "STI": n_sti}
+        if c1 < clock:
+            V("step_error", k, f"clock went backwards {clock} -> {c1}")
+            break
+        if power == 2:
+            probes["off_segment"] = probes.get("off_segment", 0) + 1
+            if isr & 3:
+                V("off_timer_runs", k, f"timer status bits {isr & 3:#x} raised while powered off (cycles {clock + 1}..{c1})",
+                  what="fired", path="async_timer_task")
+            for name in ("MTI", "STI"):
+                if cfg["enabled"] and period[name] > 0 and got_next[name] != nxt[name]:
+                    V("off_timer_runs", k, f"{name} target moved {nxt[name]} -> {got_next[name]} while powered off",
+                      what="target_moved", path="async_timer_task")
+                    nxt[name] = got_next[name]
+        else:
+            fired = 0
+            for name in ("MTI", "STI"):
+                p = period[name]
+                if cfg["enabled"] and p > 0:
+                    for c in range(clock + 1, c1 + 1):
+                        if c >= nxt[name]:
+                            fired |= bitof[name]
+                            while nxt[name] <= c:
+                                nxt[name] += p
+            if fired:
+                probes["fired_running" if power == 0 else "fired_halted"] = probes.get(
+                    "fired_running" if power == 0 else "fired_halted", 0) + 1
+            if (isr & 3) != fired:
+                V("lost_irq" if fired & ~isr else "gate_not_pending", k,
+                  f"cycles {clock + 1}..{c1} ({'halted' if power == 1 else 'running'}): timer status bits {isr & 3:#x}, the period "
+                  f"boundaries in that stretch give {fired:#x}", how="timer_task_cadence", path="async_timer_task")
+            for name in ("MTI", "STI"):
+                if cfg["enabled"] and period[name] > 0 and got_next[name] != nxt[name]:
+                    V("lost_irq", k, f"{name} target {got_next[name]} after cycle {c1}, expected {nxt[name]}",
+                      how="timer_task_target", path="async_timer_task")
+                    nxt[name] = got_next[name]
+        clock = c1
+    return viols
+
+
 def generate(batch: str, r: Rng, idx: int, tier: str) -> Dict[str, Any]:
+    if batch == "rs-async-timer":
+        return _gen_atimer(r)
     executor = "rs-machine" if batch.startswith("rs") else "py-machine"
     faulty = batch.endswith("faulty")
     feat = machine.gen_features(r.child("feat"), ALLOW)
@@ -79,10 +154,15 @@ def generate(batch: str, r: Rng, idx: int, tier: str) -> Dict[str, Any]:
 
 
 def execute(scn: Dict[str, Any]) -> Dict[str, Any]:
+    if scn.get("kind") == "atimer":
+        from ..rshost import host
+        return {"out": host().call([["a.timers", scn["cfg"], scn["segs"]]])[0]}
     return machine.run_machine(scn)
 
 
 def check(scn: Dict[str, Any], hist: Dict[str, Any]) -> List[Dict[str, Any]]:
+    if scn.get("kind") == "atimer":
+        return _check_atimer(scn, hist)
     viols, facts = irqmodel.check_irq(scn, hist)
     hist["_facts"] = facts
     err = hist.get("err")
@@ -93,6 +173,12 @@ def check(scn: Dict[str, Any], hist: Dict[str, Any]) -> List[Dict[str, Any]]:
 
 
 def stats(scn: Dict[str, Any], hist: Dict[str, Any]) -> Dict[str, Any]:
+    if scn.get("kind") == "atimer":
+        probes = dict(hist.get("_probes") or {})
+        out = hist["out"]
+        return {"nontrivial": bool(probes.get("off_segment")) and bool(probes.get("fired_running") or probes.get("fired_halted")),
+                "sig": digest([scn["cfg"], scn["segs"]]), "faults": {"power_off_segment": probes.get("off_segment", 0)},
+                "probes": probes, "cycles": out[-1][0] if out else 0, "boundaries": len(out)}
     facts = hist.get("_facts") or irqmodel.check_irq(scn, hist)[1]
     obs = hist["obs"]
     probes = dict(facts["probes"])
@@ -110,6 +196,8 @@ def stats(scn: Dict[str, Any], hist: Dict[str, Any]) -> Dict[str, Any]:
 
 
 def sample(scn: Dict[str, Any], hist: Dict[str, Any]) -> Dict[str, Any]:
+    if scn.get("kind") == "atimer":
+        return {"executor": scn["exec"], "cfg": scn["cfg"], "segments": scn["segs"][:8], "observed": hist["out"][:8]}
     obs = hist["obs"]
     return {
         "executor": scn["exec"], "timer": scn["timer"], "imr0": scn["imem"][0][1], "feat": scn["feat"],
@@ -123,6 +211,12 @@ def sample(scn: Dict[str, Any], hist: Dict[str, Any]) -> Dict[str, Any]:
 def shrink(scn: Dict[str, Any]):
     """Candidates in decreasing order of ambition: truncate, drop ops (ddmin style), NOP out
     instructions (same length, addresses stay valid), simplify configuration."""
+    if scn.get("kind") == "atimer":
+        for i in range(len(scn["segs"]) - 1, 0, -1):
+            c = copy.deepcopy(scn)
+            c["segs"] = c["segs"][:i]
+            yield c
+        return
     n = scn["boundaries"]
     for nb in (n // 2, (3 * n) // 4, n - 8, n - 1):
         if 4 <= nb < n:
